@@ -97,3 +97,57 @@ func VfC18RoundTrip() {
 	vf.Assert(s2.Size() == nr+nm, "reloaded-size-differs")
 	vf.Reach("done")
 }
+
+// VfC18Fields: ONE router and ONE mapping in which every field that can be
+// populated generically (address with hash/type/key/easing, public info with
+// version, listeners, IANA names and a public service, universe, offline flag,
+// three timestamps; domain, router, creation time) is non-empty and symbolic,
+// saved by Stop and reloaded by NewJSONFileStorage: the reloaded records equal
+// the saved ones field by field. Which fields the codec keeps is decided from
+// the real struct types of this tree (vf.JSONCopy); the comparison is
+// type-directed too (vf.DeepEqual), so a field added later is covered.
+func VfC18Fields() {
+	const file = "/state.json"
+	s := &JSONFileStorage{filename: file}
+	s.routers = map[netip.Addr]*StoredRouter{}
+	s.mappings = map[string]StoredMapping{}
+
+	r := &StoredRouter{}
+	vf.FillAny(r)
+	r.Address.IP = vfAddr18()
+	vf.Assert(s.SaveRouter(r) == nil, "save-router-failed")
+	sm := StoredMapping{}
+	vf.FillAny(&sm)
+	sm.Domain, sm.Router = "a.myco", vfAddr18()
+	s.mappings[sm.Domain] = sm
+
+	// what the caller saved, kept aside (SaveRouter stores the pointer it is given)
+	want := *r
+
+	err := s.Stop()
+	vf.Assume(!vfCrashed)
+	vf.Assert(err == nil, "stop-failed-without-crash")
+	s2, err := NewJSONFileStorage(file)
+	vf.Assert(err == nil && s2 != nil, "reload-failed")
+	if err != nil {
+		return
+	}
+	got := s2.routers[want.Address.IP]
+	vf.Assert(got != nil, "router-lost-by-reload")
+	if got == nil {
+		return
+	}
+	vf.Assert(got.Address != nil && got.Address.IP == want.Address.IP, "router-address-changed")
+	vf.Assert(vf.DeepEqual(got.Address, want.Address), "router-key-material-changed-by-reload")
+	vf.Assert(got.PublicInfo != nil && vf.DeepEqual(got.PublicInfo, want.PublicInfo), "router-public-info-changed-by-reload")
+	vf.Assert(got.Universe == want.Universe && got.Offline == want.Offline, "router-universe-or-offline-flag-changed")
+	vf.Assert(got.CreatedAt.Equal(want.CreatedAt) && got.UpdatedAt.Equal(want.UpdatedAt), "router-timestamps-changed")
+	vf.Assert(got.UsedAt != nil && got.UsedAt.Equal(*want.UsedAt), "router-used-at-changed")
+	vf.Assert(vf.DeepEqual(got, &want), "router-record-changed-by-reload")
+	gm, ok := s2.mappings[sm.Domain]
+	vf.Assert(ok, "mapping-lost-by-reload")
+	vf.Assert(gm.Domain == sm.Domain && gm.Router == sm.Router && gm.Created.Equal(sm.Created), "mapping-changed-by-reload")
+	vf.Assert(vf.DeepEqual(&gm, &sm), "mapping-record-changed-by-reload")
+	vf.Assert(len(s2.routers) == 1 && len(s2.mappings) == 1, "reloaded-state-has-different-size")
+	vf.Reach("all-fields-kept")
+}
